@@ -58,6 +58,13 @@ def groups(n, seed):
         pk = dict(variants[[0, 8, 1, 6][k % 4]], iteration_limit=BUDGET, display_interval=1e9)
         gs.append({"tag": "C03.simplex", "runs": [{"prob": ("simplex", int(rng.integers(0, 2 ** 31)), int(rng.integers(2, 6))),
                                                    "params": pk, "wellposed": True}]})
+    # banded large instances (the class names them explicitly): n = 40 .. 160, bandwidth 1 .. 3, sparse rows, CSR / CSC / COO
+    for k in range(max(6, n // 12)):
+        nn = [40, 80, 160, 60][k % 4]
+        pk = dict(variants[[0, 1, 2, 3, 4, 5, 6, 7, 8][k % 9]], iteration_limit=BUDGET, display_interval=1e9)
+        gs.append({"tag": "C03.banded", "runs": [{"prob": ("banded", int(rng.integers(0, 2 ** 31)), nn, [0, 3, 8][k % 3],
+                                                           {"bw": 1 + k % 3, "fmt": ("csr", "csc", "coo")[k % 3]}),
+                                                  "params": pk, "wellposed": True}]})
     return gs, rejected
 
 
